@@ -79,6 +79,7 @@ package ocsp
 //@   calls Client.Do
 //@   ensures [one-exchange] ncalls(Client.Do) <= old(ncalls(Client.Do)) + 1
 //@   ensures [ok=>authentic] err == nil ==> result != nil && RespAuthentic(result, cert, issuer) && ncalls(Client.Do) == old(ncalls(Client.Do)) + 1
+//@   assert before call ocsp.ParseResponseForCert#0: [status-ok] resp != nil && resp.StatusCode == 200 && arg1 == cert && arg2 == issuer
 //@   ensures [err=>not-decisive] err != nil ==> typeof(err) != type(NoServerError) && typeof(err) != type(RevokedError) && typeof(err) != type(UnknownStatusError)
 
 //@ func extensionsToMap(extensions)
